@@ -84,7 +84,7 @@ fn compat(a: &DV, b: &DV) -> bool {
 }
 
 fn scalar_check(orig: &GSpec, got: &DSc, got_exact: Option<&Zw>) -> Result<(), String> {
-    let exact_class = orig.one_plus.is_empty();
+    let exact_class = orig.one_plus.is_empty() && orig.int_factor == [1, 0, 0, 0];
     if exact_class {
         let want = orig.scalar_exact().unwrap();
         match got {
@@ -400,7 +400,7 @@ impl Ctx<'_> {
             }
         }
         if let Err(why) = scalar_check(&self.sc.g, &dec.scalar, dec.scalar_dyadic.as_ref()) {
-            let exact = self.sc.g.one_plus.is_empty();
+            let exact = self.sc.g.one_plus.is_empty() && self.sc.g.int_factor == [1, 0, 0, 0];
             self.out.violations.push(
                 Violation::new("scalar_not_preserved", format!("{what}: {why}"))
                     .with("scalar_class", if exact { "sqrt2_pow_times_omega_pow" } else { "general" }),
@@ -529,8 +529,11 @@ impl Property for C13 {
         if g.verts.iter().any(|v| v.2 > 256) {
             out.probe("has.den_gt_256");
         }
-        if !g.one_plus.is_empty() {
+        if !g.one_plus.is_empty() || g.int_factor != [1, 0, 0, 0] {
             out.probe("has.general_scalar");
+        }
+        if g.one_plus.contains(&(1, 1)) {
+            out.probe("has.zero_scalar");
         }
         let mut coords: Vec<(u64, u64)> = g.verts.iter().map(|v| (v.3.to_bits(), v.4.to_bits())).collect();
         coords.sort();
@@ -604,6 +607,11 @@ impl Property for C13 {
                 h.one_plus.remove(i);
                 c.push(Sc { g: h, ..sc.clone() });
             }
+        }
+        if g.int_factor != [1, 0, 0, 0] {
+            let mut h = g.clone();
+            h.int_factor = [1, 0, 0, 0];
+            c.push(Sc { g: h, ..sc.clone() });
         }
         if g.sqrt2_pow != 0 {
             let mut h = g.clone();
